@@ -131,7 +131,7 @@ fn tri<T: Sc>(t: &mut Toks, cx: &mut Ctx, to_q: Option<fn(&T) -> Option<Q>>) -> 
             } else if r.size() != n { cx.check(matches!(&sv, Err("size")), "solve accepted a right-hand side of the wrong length"); }
         }
     }
-    if !T::is_exact() && r.size() == n {
+    if !T::is_exact() && T::TAG == "f" && r.size() == n {   // the property claims backward stability for diagonally dominant f64 systems
         if let Ok(u) = &sv { if u.vec.iter().all(|x| x.finite()) {
             // diagonally dominant systems: backward stable
             let dom = (0..n).all(|a| d[a][a].mag64() > (0..n).filter(|b| *b != a).map(|b| d[a][b].mag64()).sum::<f64>());
@@ -173,7 +173,11 @@ fn tri_hist<T: Sc>(t: &mut Toks, cx: &mut Ctx) -> String {
         let op = t.next();
         let before = wr_tri(&m);
         let r: Result<(), &'static str> = match op {
-            "resize" => { let n = t.usize(); let r = guarded(|| m.resize(n)); if r.is_ok() { rs = vec![T::zero(); n.saturating_sub(1)]; rm = vec![T::zero(); n]; ru = vec![T::zero(); n.saturating_sub(1)]; } else { cx.check(n == 0, "resize panicked for a positive size"); } r }
+            "resize" => { let n = t.usize(); let r = guarded(|| m.resize(n));
+                if r.is_ok() { // the property does not say which values resize leaves: only the sizes are demanded, the values are adopted
+                    cx.check(m.size() == n && m.maindiagonal().size() == n && m.subdiagonal().size() == n.saturating_sub(1) && m.superdiagonal().size() == n.saturating_sub(1), "resize: the diagonals do not have lengths n-1, n, n-1");
+                    rs = m.subdiagonal().vec.clone(); rm = m.maindiagonal().vec.clone(); ru = m.superdiagonal().vec.clone(); }
+                else { cx.check(n == 0, "resize panicked for a positive size"); } r }
             "set" => { let (i, j) = (t.usize(), t.usize()); let x: T = t.get(); let r = guarded(|| { m[(i, j)] = x; });
                 let n = rm.len(); let ok = i < n && j < n && (i == j || i == j + 1 || j == i + 1);
                 cx.check(r.is_ok() == ok, "indexed write: acceptance differs from the three-diagonal range");
